@@ -563,7 +563,12 @@ func (bridge *ExprBridge) PreprocessIsNullExpression(expression string) (string,
 	}
 
 	// 再替换简单字段的IS NULL
-	result = reNull.ReplaceAllString(result, "$1 == nil")
+	// A nested field is absent, hence NULL, when one of its parents is missing
+	// or NULL; optional chaining (a?.b) yields nil there instead of failing.
+	result = reNull.ReplaceAllStringFunc(result, func(match string) string {
+		operand := reNull.FindStringSubmatch(match)[1]
+		return strings.ReplaceAll(operand, ".", "?.") + " == nil"
+	})
 
 	return result, nil
 }
